@@ -96,6 +96,7 @@ def glue_text(a0: int, a1: int, a2: int, y: int) -> bool:
     pre: 0 <= a0 < 3 and 0 <= a1 < 3 and 0 <= a2 < 3 and 0 <= y <= 1
     post: _
     """
+    xs.path_start()
     # longer expressions in which requirement keys REPEAT (the evaluator is asked once per distinct key or once per occurrence,
     # the builder zips keys and outcomes): every assignment of the three keys
     sel = [xs.pick(a0, 0, 3), xs.pick(a1, 0, 3), xs.pick(a2, 0, 3)]
@@ -122,6 +123,7 @@ def glue_val(idx: int) -> bool:
     pre: LO <= idx < HI
     post: _
     """
+    xs.path_start()
     return _glue(idx, False, False, False)
 
 
@@ -130,6 +132,7 @@ def glue_fce(idx: int, f0: bool, f1: bool, f2: bool) -> bool:
     pre: LO <= idx < HI
     post: _
     """
+    xs.path_start()
     return _glue(idx, f0, f1, f2)
 
 
